@@ -85,7 +85,10 @@ def designs(tier, rnd):
              # all the bits of one signal, but reversed / permuted / with a repeated bit
              (None, Slc(Sig("hh"), R_(None, None, -1))), (None, Cat(Slc(Sig("hh"), I(1)), Slc(Sig("hh"), I(0)))),
              (None, Cat(Slc(Sig("hh"), I(0)), Slc(Sig("hh"), I(1)))), (None, Cat(Slc(Sig("hh"), I(0)), Slc(Sig("hh"), I(0)))),
-             (None, Cat(Slc(Sig("bus"), I(1)), Slc(Sig("hh"), I(0))))]
+             (None, Cat(Slc(Sig("bus"), I(1)), Slc(Sig("hh"), I(0)))),
+             # ... the same of a PORT of the top (an internal signal seen by one instance only has no observable bit order)
+             (None, Slc(Sig("bus"), R_(None, None, -1))), (None, Cat(Slc(Sig("bus"), I(1)), Slc(Sig("bus"), I(0)))),
+             (None, Cat(Slc(Sig("bus"), I(0)), Slc(Sig("bus"), I(0))))]
     for ta, tb in unsup:
         mods = {"Leafm": leafmod(leaf_kinds[0]), "M0": mids["thru"]()}
         top_sigs = [U.sig("io", 1, True), U.sig("bus", 2, True), U.sig("g", 1), U.sig("hh", 2)]
